@@ -623,6 +623,47 @@ def _c16_cli_ends(chk, thorough):
         if not seen and st is None:
             raise vlib.ToolError("the debugger's prompt never appeared on the pseudo terminal")
         events.append({"ev": "ends", "tag": "tty:%s" % "|".join(lines), "ended": st is not None})
+    # the terminal reader's environment: whatever sits where the history file should be (a named pipe, a directory, a dangling link,
+    # bytes that are not UTF-8, a cache directory that is a file or missing) the first prompt appears and `step; quit` ends the session
+    def _hist_env(kind, cache):
+        hp = os.path.join(cache, ptydrive.HIST_NAME)
+        if kind == "cachefile":
+            open(cache, "w").write("x")
+            return
+        if kind == "cachemissing":
+            return
+        os.makedirs(cache, exist_ok=True)
+        if kind == "fifo":
+            os.mkfifo(hp)
+        elif kind == "dir":
+            os.makedirs(hp)
+        elif kind == "dangling":
+            os.symlink(os.path.join(cache, "nowhere", "h"), hp)
+        elif kind == "linkfifo":
+            os.mkfifo(os.path.join(cache, "pipe"))
+            os.symlink(os.path.join(cache, "pipe"), hp)
+        elif kind == "nonutf8":
+            open(hp, "wb").write(b"step\n\xff\xfe\nr\n")
+        elif kind == "nonewline":
+            open(hp, "wb").write(b"step\nregisters")
+        elif kind == "readonly":
+            open(hp, "w").write("step\n")
+            os.chmod(hp, 0o444)
+    for kind in ("regular", "fifo", "dir", "dangling", "linkfifo", "nonutf8", "nonewline", "readonly", "cachefile", "cachemissing"):
+        cache = os.path.join(d, "hcache_" + kind)
+        _hist_env(kind, cache)
+        env = dict(os.environ, NO_COLOR="1", XDG_CACHE_HOME=cache, HOME=d, TERM="xterm")
+        p = ptydrive.Pty([vlib.LACE_BIN, "debug", "--minimal", src], env)
+        seen = p.read_until(ptydrive.at_prompt, limit=30.0)
+        if kind == "regular" and not seen:
+            p.finish(grace=0.5)
+            raise vlib.ToolError("the debugger's prompt never appeared on the pseudo terminal")
+        if seen:
+            for ln in ("step", "quit"):
+                p.send(ln.encode() + b"\r")
+                p.read_until(ptydrive.at_prompt, quiet=0.3, limit=3.0)
+        st = p.finish(grace=20.0 if seen else 1.0)
+        events.append({"ev": "ends", "tag": "tty-hist:%s" % kind, "ended": seen and st is not None})
     _cli_validate(chk, events, "ends")
     _shutil.rmtree(d, ignore_errors=True)
 
